@@ -79,17 +79,19 @@ func pointPool(r *rng, nRand int) []pt {
 
 // rarePoints: genuine curve points whose coordinates put the field code into representations that random points
 // reach with probability 2^-20 .. 2^-230 — the inputs on which a dropped or re-ordered Normalise shows:
-//   (a) constructed from a chosen value v of x^3 mod p (x = cube root, y = square root of v+7):
-//       v's low 26-bit word within 7 of 2^26 (the +7 carries out of word 0), low two words all ones, v in [p-7, p-1]
-//       (v+7 wraps the prime: y = +-1, +-2, ...), v tiny;
-//   (b) found by search with the real field code (hooks): x whose x^2*x leaves Mul with a word above its 26-bit mask
-//       (an unpropagated carry), y whose y^2 does.
+//
+//	(a) constructed from a chosen value v of x^3 mod p (x = cube root, y = square root of v+7):
+//	    v's low 26-bit word within 7 of 2^26 (the +7 carries out of word 0), low two words all ones, v in [p-7, p-1]
+//	    (v+7 wraps the prime: y = +-1, +-2, ...), v tiny;
+//	(b) found by search with the real field code (hooks): x whose x^2*x leaves Mul with a word above its 26-bit mask
+//	    (an unpropagated carry), y whose y^2 does.
+//
 // perClass points per class; deterministic in r.
 func rarePoints(r *rng, perClass int) []pt {
 	var out []pt
 	three := big.NewInt(3)
 	pm1 := new(big.Int).Sub(curveP, big.NewInt(1))
-	cubicExp := new(big.Int).Div(pm1, three)                                          // v is a cube  <=>  v^((p-1)/3) = 1
+	cubicExp := new(big.Int).Div(pm1, three)                                            // v is a cube  <=>  v^((p-1)/3) = 1
 	rootExp := new(big.Int).Div(new(big.Int).Add(curveP, big.NewInt(2)), big.NewInt(9)) // p = 7 mod 9: cube root = v^((p+2)/9)
 	sqrtExp := new(big.Int).Rsh(new(big.Int).Add(curveP, big.NewInt(1)), 2)
 	fromCube := func(v *big.Int) (pt, bool) {
